@@ -8,7 +8,8 @@ CLAIMED="C01 C02 C04 C05 C06 C07 C08 C09 C10 C13 C15"
 if ! git -C /repo diff --quiet; then echo "refusing: /repo working tree is not clean"; exit 2; fi
 for d in "$HERE"/seeded/*${PAT}*/; do
   id="$(basename "$d")"; [ -f "$d/patch.diff" ] || continue
-  if ! git -C /repo apply "$d/patch.diff" 2>/dev/null; then echo "$id: APPLY-FAILED"; continue; fi
+  # (patches were written against the tree of their day; hooks added to /repo since may sit in their context lines)
+  if ! git -C /repo apply "$d/patch.diff" 2>/dev/null && ! git -C /repo apply -C1 "$d/patch.diff" 2>/dev/null; then echo "$id: APPLY-FAILED"; continue; fi
   alarmed=""; silent=""; sigs=""
   for c in $CLAIMED; do
     o="$("$HERE/wx" check "$c" --tier quick --no-evidence 2>&1)"; rc=$?
